@@ -423,21 +423,24 @@ Definition drop_conflict_at (sb so st : schema) (b o t : content) (k : key) : bo
    the row stays deleted (observed; the differ compares the rows in the columns of the base). *)
 Definition same_on_base (sb sx : schema) (rb rx : row) : bool :=
   forallb (fun c => negb (has_col c sx) || cell_eqb (cell_of sb rb c) (cell_of sx rx c)) sb.
-Definition settle (sb sx sm : schema) (b x other : content) : content :=
+(* ... and a row both sides inserted has, in a column only the other side has, the other side's cell
+   (this side has no opinion about that column). *)
+Definition settle (sb sx sy sm : schema) (b x other : content) : content :=
   map (fun kr =>
     if fst (fst kr) =? 1 then
       match get (fst kr) other, get (fst kr) b with
       | None, Some rb => if same_on_base sb sx rb (snd kr) then (fst kr, proj sb sm rb) else (fst kr, proj sx sm (snd kr))
+      | Some ry, None => (fst kr, map (fun c => if has_col c sx then cell_of sx (snd kr) c else cell_of sy ry c) sm)
       | _, _ => (fst kr, proj sx sm (snd kr))
       end
     else kr) x.
 
 (* rows are merged in the merged schema, a column a side does not have reading as NULL there *)
 Definition smerge3 (sb so st : schema) (b o t : content) : content :=
-  let sm := schema_merge sb so st in merge3 (reshape sb sm b) (settle sb so sm b o t) (settle sb st sm b t o).
+  let sm := schema_merge sb so st in merge3 (reshape sb sm b) (settle sb so st sm b o t) (settle sb st so sm b t o).
 Definition sclean (sb so st : schema) (b o t : content) : bool :=
   let sm := schema_merge sb so st in
-  clean (reshape sb sm b) (settle sb so sm b o t) (settle sb st sm b t o)
+  clean (reshape sb sm b) (settle sb so st sm b o t) (settle sb st so sm b t o)
   && forallb (fun k => negb (drop_conflict_at sb so st b o t k)) (keys3 b o t).
 
 Fixpoint schema_eqb (a b : schema) : bool :=
